@@ -2,7 +2,10 @@
 WriterI (compressors, channels, emitter) is checked by TLC against the WriterP clauses for
 every completion order; the real writer's underlying-writer events and replies are
 validated against WriterP: Emit (contiguous, in order, never ahead of what was written),
-Ret(Wait) (durable after Flush), Ret(Close), and the sink observation at every reply."""
+Ret(Wait) (durable after Flush), Ret(Close), and the sink observation at every reply.
+The BAM writer runs over the same instrumented sink as the BGZF script it is (NewWriter =
+Write(header) Flush Wait, Write(record), Close; sizes and content from a dry run parsed by the
+harness): the header is durable when NewWriter returns, records arrive whole and in order."""
 from checks import _writer
 LEVEL = "model_checking"
 TRACE_CFG = {"WriterTrace": "WriterTraceP.cfg"}
@@ -11,7 +14,7 @@ TRACE_CFG = {"WriterTrace": "WriterTraceP.cfg"}
 def run(ctx):
     ctx.rule = ("scripts as C08 (plain family, underlying writer randomly delayed) plus the fault family (every fault position of 6 fixed "
                 "workloads x wc x {error, partial+error}, random positions of random scripts) and directed schedules that hold the emitter or "
-                "the compressors at hook points; the sink is observed inside every underlying Write and at every reply; distinct = scenarios")
+                "the compressors at hook points; bam.Writer over the sink (0-40 records of 40 B - 70 KiB, wc 1/2/4); the sink is observed inside every underlying Write and at every reply; distinct = scenarios")
     ctx.assumptions = _writer.ASSUME
     _writer.model(ctx)
-    _writer.drive_and_validate(ctx, ["plain", "fault", "hold"], selftest_on="fault")
+    _writer.drive_and_validate(ctx, ["plain", "fault", "hold", "bam"], selftest_on="fault")
